@@ -199,7 +199,8 @@ func (s *InterfaceType) SignatureIDL() string {
 // TypeName returns a statement to be inserted when the type is to be
 // declared.
 func (s *InterfaceType) TypeName() *jen.Statement {
-	return jen.Qual(s.PackageName, objName(s.Name))
+	// interfaces are declared in the generated file itself, title-cased
+	return jen.Id(objName(signature.CleanName(s.Name)))
 }
 
 // TypeDeclaration writes the type declaration into file.
@@ -305,7 +306,7 @@ func (s *InterfaceType) Unmarshal(reader string) *jen.Statement {
 	    if err != nil {
 		    return nil, fmt.Errorf("get proxy: %s", err)
 	    }
-	    return Make`+s.Name+`(p.session, proxy), nil`),
+	    return Make`+signature.CleanName(s.Name)+`(p.session, proxy), nil`),
 	).Call()
 }
 
